@@ -82,6 +82,7 @@ func (w *World) fullPrelude() string {
 	b.WriteString(w.prelude())
 	b.WriteString("(declare-fun rangeKey (Int Int) Str)\n(declare-fun rangeIdx (Int Str) Int)\n")
 	b.WriteString("(declare-fun byteAt (Str Int) Int)\n(assert (forall ((s Str) (i Int)) (! (and (<= 0 (byteAt s i)) (<= (byteAt s i) 255)) :pattern ((byteAt s i)))))\n")
+	b.WriteString("(declare-fun idx (Int Int) Int)\n(assert (forall ((o Int) (i Int)) (! (= (idx o i) (+ o i)) :pattern ((idx o i)))))\n")
 	b.WriteString("(declare-fun implementsI (Int Int) Bool)\n(declare-fun cloFn (Int) Int)\n(declare-fun cloBind (Int Int) Int)\n")
 	var names []string
 	for _, g := range w.globalOrder() {
